@@ -8,20 +8,22 @@ props = sys.argv[2]
 tier = "quick"
 if "--tier" in sys.argv:
     tier = sys.argv[sys.argv.index("--tier") + 1]
+REPO = os.environ.get("VERIF_REPO", "/repo")
+VROOT = os.environ.get("VERIF_ROOT", "/verif")
 allp = ["C%02d" % i for i in range(1, 21)]
 props = allp if props == "all" else props.split(",")
 def sh(cmd, **kw):
     return subprocess.run(cmd, shell=True, stdout=subprocess.PIPE, stderr=subprocess.STDOUT, text=True, **kw)
-st = sh("git -C /repo status --porcelain").stdout.strip()
+st = sh("git -C %s status --porcelain" % REPO).stdout.strip()
 if st:
-    print("REFUSING: /repo is not clean:\n" + st); sys.exit(2)
-r = sh("git -C /repo apply --whitespace=nowarn %s" % patch)
+    print("REFUSING: repo is not clean:\n" + st); sys.exit(2)
+r = sh("git -C %s apply --whitespace=nowarn %s" % (REPO, patch))
 if r.returncode != 0:
     print("patch does not apply:", r.stdout); sys.exit(2)
 res = {}
 try:
     for p in props:
-        r = sh("cd /verif && ./check %s --tier %s" % (p, tier))
+        r = sh("cd %s && ./check %s --tier %s" % (VROOT, p, tier))
         lines = [l for l in r.stdout.split("\n") if l.startswith(("VIOLATION", "OK", "KNOWN-FINDING", "  "))]
         vio = [l for l in lines if l.startswith("VIOLATION")]
         res[p] = dict(rc=r.returncode, violation=vio[0] if vio else "", detail=[l for l in lines if l.startswith("  ")][:3])
@@ -29,8 +31,8 @@ try:
         for d in res[p]["detail"]:
             print("     " + d.strip()[:200])
 finally:
-    sh("git -C /repo checkout -- . && git -C /repo clean -fdq")
-    st = sh("git -C /repo status --porcelain").stdout.strip()
+    sh("git -C %s checkout -- . && git -C %s clean -fdq" % (REPO, REPO))
+    st = sh("git -C %s status --porcelain" % REPO).stdout.strip()
     if st:
         print("WARNING: /repo not clean after undo:\n" + st)
 print("RESULT " + json.dumps({p: (v["rc"], "no-failing-input-found" in v["violation"]) for p, v in res.items()}))
